@@ -212,3 +212,15 @@ _add_family(globals(), _df, 'dynflow', lambda case, impl: _df.oracle(case, impl,
 # processes sharing one schema object, one of them with an override: listing order must not matter
 from harness import schemaleak as _sl               # noqa: E402
 _add_family(globals(), _sl, 'schemaleak', lambda case, impl: _sl.oracle(case, impl, who=('values',)), share=0.04)
+
+
+# several ports of one process meeting on one variable, at any depth below the node they are wired to and in
+# either listing order: every port's update counts (the listing order of ports is moot)
+from harness import reuseupd as _ru                     # noqa: E402
+_add_family(globals(), _ru, 'reuseupd', _ru.oracle, share=0.05)
+
+
+# compatible declarations of one variable (an updater named by the writer only) in every listing order
+from harness import declorder as _do                    # noqa: E402
+from harness.mixins import add_family as _add_family    # noqa: E402,F811
+_add_family(globals(), _do, 'declorder', _do.oracle, share=0.04)
